@@ -66,6 +66,11 @@ type Conn struct {
 	WriteHook func(b []byte, accept func([]byte)) (int, error)
 
 	Local, Remote net.Addr
+
+	// ErrWithData: when the last queued fragment is read and an error (EOF included) has been
+	// fed, that Read returns the bytes AND the error together, as io.Reader allows and as some
+	// transports (TLS with a pending close_notify, in-memory pipes) do.
+	ErrWithData bool
 }
 
 // NewConn creates a connection with default TCP-like addresses.
@@ -95,6 +100,20 @@ func (c *Conn) FeedErr(err error) {
 	c.mu.Unlock()
 }
 
+// FeedWithErr queues fragments and the error that follows them in one step, so that (with
+// ErrWithData) the read that takes the last fragment also reports the error.
+func (c *Conn) FeedWithErr(err error, frags ...[]byte) {
+	c.mu.Lock()
+	for _, f := range frags {
+		if len(f) > 0 {
+			c.frags = append(c.frags, append([]byte{}, f...))
+		}
+	}
+	c.rerr = err
+	c.cond.Broadcast()
+	c.mu.Unlock()
+}
+
 // FeedEOF is FeedErr(io.EOF): the peer closed its side.
 func (c *Conn) FeedEOF() { c.FeedErr(io.EOF) }
 
@@ -118,6 +137,9 @@ func (c *Conn) Read(p []byte) (int, error) {
 			}
 			c.reads++
 			c.cond.Broadcast()
+			if c.ErrWithData && len(c.frags) == 0 && c.rerr != nil {
+				return n, c.rerr
+			}
 			return n, nil
 		}
 		if c.rerr != nil {
